@@ -134,6 +134,29 @@ def c19_2(ck, prog):
         r.from_reports(ex.reports, keyfn=lambda k, rep: 'activate_service:%s' % '/'.join(k))
     else:
         r.ok('activate_service:spawn-only-when-not-pending')
+    # one start mechanism per activation: a request handed to systemd is not also spawned directly
+    handed = [0]
+
+    def on_event2(user, ev, ctx):
+        if ev['ev'] == 'call':
+            c = ev['e']
+            if c.get('callee') == 'dbus_message_new_signal' and len(c['args']) > 2 and \
+                    c['args'][2].get('k') == 'str' and c['args'][2].get('v') == 'ActivationRequest':
+                handed[0] += 1
+                return ('req', c['id'])
+            if c.get('callee') in spawn and user is not None:
+                if ctx.result_known(user[1]) is not False:
+                    ctx.report('the service is spawned directly on a path that already asked systemd to start it '
+                               '(ActivationRequest created at line %d)' % ctx.ex.id2call[user[1]]['line'], c['line'],
+                               key=('double-start',))
+        return user
+    ex2 = Explorer(fn, init=None, on_event=on_event2, calls={'dbus_message_new_signal'}, track='auto',
+                   cap=900000).run()
+    if handed[0]:
+        if ex2.reports:
+            r.from_reports(ex2.reports, keyfn=lambda k, rep: 'activate_service:%s' % '/'.join(k))
+        else:
+            r.ok('activate_service:systemd-handoff-excludes-direct-spawn')
     # the pending branch appends to the existing queue
     okq = any(is_member(strip_addr(c['args'][0]) or {}, 'entries', 'BusPendingActivation')
               for b, i, c in fn.calls('_dbus_list_append'))
